@@ -2,6 +2,7 @@ import SigmaVerif.Lemmas.C12Cond
 import SigmaVerif.Lemmas.C12Syn
 import SigmaVerif.Lemmas.C12Append
 import SigmaVerif.Lemmas.C12Kw
+import SigmaVerif.Lemmas.C12Hash
 /-!
 # C12 — each pipeline transformation equals its documented source-level rewrite
 
@@ -533,7 +534,110 @@ theorem mapString_below_all (tbl : List (Str × List Str)) (sc : Scope) (cx : Ct
     congr 1
     exact mapME_congr _ _ _ (fun a _ => detBE_single cx n (dropAllKey k, a))
 
-/-! ## 8. Non-vacuity: the hypotheses are satisfiable and the conclusions are about real rules -/
+/-! ## 8. Keywords mapped to several fields; hash-field splitting -/
+
+/-- **Keywords mapped to one field of a list** are keywords mapped to that field (section 1) -/
+theorem keywordToFields_single (g : Str) (doc : Doc) : keywordToFields [g] doc = keywordToField g doc := by
+  have : keywordItems [g] = keywordItem g := funext (fun _ => rfl)
+  simp only [keywordToFields, keywordToField, keywordToFieldsDet, keywordToFieldDet, this]
+
+/-- **Keywords mapped to several fields are an OR of substring items**: each alternative is the `contains` item
+`keywordToField_is_contains` speaks about, and the list of them means their OR. -/
+theorem keywordToFields_is_or (g1 g2 : Str) (cx : Ctx) (n : Nat) (vs : List PV) (e1 e2 : BE)
+    (h1 : detBE cx n (keywordToFieldDet g1 (.values vs)) = .ok e1)
+    (h2 : detBE cx n (keywordToFieldDet g2 (.values vs)) = .ok e2) :
+    keywordToFieldsDet [g1, g2] (.values vs) = .list [keywordToFieldDet g1 (.values vs), keywordToFieldDet g2 (.values vs)] ∧
+    detBE cx (n + 1) (keywordToFieldsDet [g1, g2] (.values vs)) = .ok (.or [e1, e2]) := by
+  have hsyn : keywordToFieldsDet [g1, g2] (.values vs) =
+      .list [keywordToFieldDet g1 (.values vs), keywordToFieldDet g2 (.values vs)] := rfl
+  exact ⟨hsyn, by rw [hsyn]; exact list_is_or cx n _ _ e1 e2 h1 h2⟩
+
+/-- **The algorithm of a hash entry does not depend on its spelling**: two names that agree up to case name the same
+algorithm, so their entries get the same target field - in particular the upper-case form of a name stands for the name. -/
+theorem hash_algo_spelling (cfg : HashCfg) (a b v : Str) (h : a.map Char.toUpper = b.map Char.toUpper) :
+    normAlgo a = normAlgo b ∧ hashEntryParts cfg [a, v] = hashEntryParts cfg [b, v] ∧
+    normAlgo (a.map Char.toUpper) = normAlgo a := by
+  refine ⟨by simp only [normAlgo, h], by simp only [hashEntryParts, normAlgo, h], ?_⟩
+  simp only [normAlgo, List.map_map]
+  congr 2
+  funext c
+  exact toUpper_idem c
+
+/-- **Only configured algorithms get a field**: an entry is kept iff its algorithm is one of `valid_hash_algos`, and the
+target field is the prefix followed by that configured name (or the prefix alone). -/
+theorem hash_entry_valid (cfg : HashCfg) (s a v : Str) (h : hashEntry cfg s = some (a, v)) :
+    a ∈ cfg.algos ∧ a ≠ [] ∧ hashField cfg a = cfg.pfx ++ (if cfg.dropAlgo then [] else a) := by
+  unfold hashEntry at h
+  generalize hashEntryParts cfg (hashParts s) = e at h
+  simp only [] at h
+  split at h
+  · rename_i hc
+    simp only [Bool.and_eq_true, Bool.not_eq_true', List.contains_eq_mem, decide_eq_true_eq] at hc
+    cases h
+    refine ⟨hc.2, ?_, rfl⟩
+    intro hnil
+    rw [hnil] at hc
+    exact absurd hc.1 (by simp)
+  · cases h
+
+/-- **Splitting neither loses nor invents an entry, and every field gets ONE item**: value `x` stands under field `f`
+after grouping iff some entry of an algorithm with target field `f` has the hash `x`; the fields of the groups are
+pairwise different (entries of one algorithm, however spelled, are collected in one item). -/
+theorem hash_groups_exact (cfg : HashCfg) (es : List (Str × Str)) :
+    (∀ f x, InGroups (hashGroups cfg es) f x ↔ ∃ e ∈ es, hashField cfg e.1 = f ∧ e.2 = x) ∧
+    (groupKeys (hashGroups cfg es)).Nodup := by
+  refine ⟨fun f x => ?_, groupAll_nodup _ [] List.nodup_nil⟩
+  unfold hashGroups
+  rw [inGroups_groupAll]
+  constructor
+  · rintro (h | h)
+    · exact absurd h (inGroups_nil f x)
+    · obtain ⟨e, he, heq⟩ := List.mem_map.mp h
+      cases heq
+      exact ⟨e, he, rfl, rfl⟩
+  · rintro ⟨e, he, h1, h2⟩
+    exact .inr (List.mem_map.mpr ⟨e, he, by rw [h1, h2]⟩)
+
+/-- **The split item is the OR of its field items.**  The item becomes the list (OR) of one single-item map per group, in
+order of first appearance; nothing else of the map is touched (`scope_respected_positional` has the positional form). -/
+theorem hash_item_is_or (cfg : HashCfg) (gate : Scope) (kv : KV) (h : (gate kv.1 kv.2 && hashApplies cfg kv) = true) :
+    (hashItemGated cfg gate kv).det =
+      .list ((hashGroups cfg (hashEntries cfg kv.2)).map (fun g => .map [(g.1, g.2.map .str)])) := by
+  simp [hashItemGated, h, hashItem, Out.det]
+
+/-- **An item that is not a hash list in scope stays** (another field, a non-string value, outside the field name
+conditions), and a rule without such an item is left unchanged - the identity instance of `hashes_fields`. -/
+theorem hashes_identity (cfg : HashCfg) (gate : Scope) (doc : Doc)
+    (hd : ∀ d ∈ doc.dets, ∀ kv ∈ detItems d.2, (gate kv.1 kv.2 && hashApplies cfg kv) = false) :
+    hashesFields cfg gate doc = doc ∧ (Tr.hashes cfg gate).apply doc = .ok doc := by
+  have hid : hashesFields cfg gate doc = doc := by
+    obtain ⟨dets, conds, fields⟩ := doc
+    simp only [hashesFields]
+    have h1 : mapDets (hashDet cfg gate) dets = dets :=
+      mapDets_id _ dets (fun d hdm => by
+        unfold hashDet
+        exact mapDet_id _ _ d.2 (fun kv hkv => by simp [hashItemGated, hd d hdm kv hkv]) (fun _ _ => rfl))
+    rw [h1]
+  refine ⟨hid, ?_⟩
+  have he : doc.dets.all (fun d => hashCheck cfg gate hashItemExpressible d.2) = true := by
+    simp only [List.all_eq_true, hashCheck]
+    intro d hdm kv hkv
+    simp [hashItemExpressible, hd d hdm kv hkv]
+  have hv : doc.dets.all (fun d => hashCheck cfg gate hashItemValid d.2) = true := by
+    simp only [List.all_eq_true, hashCheck]
+    intro d hdm kv hkv
+    simp [hashItemValid, hd d hdm kv hkv]
+  simp [Tr.apply, he, hv, hid]
+
+/-- a field that is not in `field_to_parse` and a keyword list are never hash lists -/
+theorem hash_not_applicable (cfg : HashCfg) (k : Str) (vs : List PV)
+    (h : ∀ f, fieldOf k = some f → f ∉ cfg.fields) : hashApplies cfg (k, vs) = false := by
+  unfold hashApplies
+  cases hf : fieldOf k with
+  | none => simp
+  | some f => simp [h f hf]
+
+/-! ## 9. Non-vacuity: the hypotheses are satisfiable and the conclusions are about real rules -/
 
 section Examples
 
@@ -624,6 +728,33 @@ example : (Tr.nest [.rename (tableMap [("fieldA".toList, ["mappedA".toList])]), 
 /-- the template of an added condition -/
 example : tplSubst [("category".toList, "cat".toList), ("product".toList, "prod".toList)] "$category-${product}$$x$nope".toList =
     "cat-prod$x$nope".toList := by decide
+
+/-- hash-field splitting: spellings of one algorithm share a field, wildcards and separators are void, an entry of no
+valid algorithm is left out, a bare digest is recognised by its length -/
+def exHash : HashCfg := { algos := ["MD5".toList, "SHA256".toList], pfx := "File".toList, byLength := [(4, "MD5".toList)] }
+
+example : hashDet exHash (fun _ _ => true)
+      (.map [("Hashes|contains".toList, [.str "sha256=AB".toList, .str "MD5=CD".toList, .str "*Sha256|EF*".toList, .str "CRC32=00".toList, .str "0123".toList]),
+             ("fieldA".toList, [.str "x".toList])]) =
+    .all [.list [.map [("FileSHA256".toList, [.str "AB".toList, .str "EF".toList])],
+                 .map [("FileMD5".toList, [.str "CD".toList, .str "0123".toList])]],
+          .map [("fieldA".toList, [.str "x".toList])]] := by rfl
+
+example : normAlgo "sha256".toList = "SHA256".toList ∧ normAlgo "*Md5".toList = "MD5".toList := by decide
+
+/-- … and what it means: the OR over the fields of the ORs over their hashes -/
+example : ruleBE cx0 (hashesFields exHash (fun _ _ => true)
+      { dets := [("sel".toList, .map [("Hashes".toList, [.str "sha256=AB".toList, .str "md5=CD".toList])])], conds := ["sel".toList] }).dets "sel".toList =
+    .ok (.or [.atom (.str (some "FileSHA256".toList) false [.lit 'A', .lit 'B']),
+              .atom (.str (some "FileMD5".toList) false [.lit 'C', .lit 'D'])]) := by rfl
+
+/-- an item without an entry of a valid algorithm is the documented failure -/
+example : (Tr.hashes exHash (fun _ _ => true)).apply
+      { dets := [("sel".toList, .map [("Hashes".toList, [.str "CRC32=00".toList])])], conds := ["sel".toList] } matches .error .noValidHash := by rfl
+
+/-- keywords to two fields -/
+example : keywordToFieldsDet ["msg".toList, "raw".toList] (.values [.str "a?".toList]) =
+    .list [.map [("msg|contains".toList, [.str "a?".toList])], .map [("raw|contains".toList, [.str "a?".toList])]] := by rfl
 
 end Examples
 
